@@ -425,8 +425,8 @@ pub fn stage_file(
     if f.flags & 32 != 0 {
         o = o.is_readme();
     }
-    if let Some(c) = &f.caps {
-        o = o.caps(c.clone())?;
+    if let Some(c) = effective_caps(f) {
+        o = o.caps(c)?;
     }
     if let Some(t) = &f.symlink {
         o = o.symlink(t.clone());
@@ -688,7 +688,22 @@ pub fn component() -> BoxedStrategy<String> {
 pub const CAPS_VALID: &[&str] = &[
     "cap_chown=p", "cap_chown+ie", "=e", "all=e", "cap_sys_admin,cap_sys_ptrace=pe",
     "cap_net_raw+ep cap_chown-i", "=e cap_chown-e", "CAP_NET_BIND_SERVICE=ep",
+    // outer / repeated whitespace: whether such text is accepted is left open (see
+    // `effective_caps`), but when it is accepted it has to be kept as given
+    " =e cap_chown-e", "cap_net_raw=ep\n", "cap_chown=p  ", "cap_chown=p \t cap_kill+i",
 ];
+
+/// The capability text that is expected to end up in the package for this file: the supplied
+/// text, except that a text with leading/trailing whitespace which the library chooses to
+/// reject (its acceptance is not specified) is treated as "no capabilities supplied".
+pub fn effective_caps(f: &FileSpec) -> Option<String> {
+    let c = f.caps.as_ref()?;
+    let outer_ws = c.starts_with(char::is_whitespace) || c.ends_with(char::is_whitespace);
+    if outer_ws && crate::engine::panics::catch(|| rpm::FileOptions::new("/probe").caps(c.clone()).is_err()).unwrap_or(false) {
+        return None;
+    }
+    Some(c.clone())
+}
 
 pub fn owner() -> BoxedStrategy<Option<String>> {
     prop_oneof![
